@@ -378,3 +378,33 @@ Fixpoint dfs_log (fuel : nat) (fp : nat -> list desc) (limit : Z)
 
 Definition find_roots_log (fuel : nat) (s : source) (fs : list filter) (limit : Z) (node : desc) :=
   dfs_log fuel (find_preds s fs) limit [(node, O)] [] [] [].
+
+(* ------------------------------------------------------------------ the loop with the depth arithmetic
+   re-read from findRoots (Generated/GC03.v findRoots_start_depth / findRoots_stop /
+   findRoots_push_depth): this is the version the extracted runner executes; Proofs/FindRoots.v
+   dfs_log_g_eq shows it is dfs_log (and breaks when the source's arithmetic changes). *)
+Fixpoint dfs_log_g (fuel : nat) (fp : nat -> list desc) (limit : Z)
+         (stack : list frame) (visited : list nat) (roots : list desc) (calls : list nat)
+  : option (list desc * list nat) :=
+  match fuel with
+  | O => None
+  | S fuel' =>
+    match stack with
+    | [] => Some (roots, rev calls)
+    | (cur, d) :: rest =>
+      if mem (d_id cur) visited then dfs_log_g fuel' fp limit rest visited roots calls
+      else
+        let visited' := d_id cur :: visited in
+        if findRoots_stop limit (Z.of_nat d)
+        then dfs_log_g fuel' fp limit rest visited' (add_root cur roots) calls
+        else match fp (d_id cur) with
+             | [] => dfs_log_g fuel' fp limit rest visited' (add_root cur roots) (d_id cur :: calls)
+             | ps => dfs_log_g fuel' fp limit
+                       (push_preds ps (Z.to_nat (findRoots_push_depth limit (Z.of_nat d))) visited' rest)
+                       visited' roots (d_id cur :: calls)
+             end
+    end
+  end.
+
+Definition find_roots_run (fuel : nat) (fp : nat -> list desc) (limit : Z) (node : desc) :=
+  dfs_log_g fuel fp limit [(node, Z.to_nat findRoots_start_depth)] [] [] [].
